@@ -102,8 +102,13 @@ def _gen_pix(rng, tier: str, chunk_hint=None) -> dict:
     r = rng.random()
     if r < 0.25:
         n = rng.choice([0, 1, 2, 8, 9, 10])
-    elif r < 0.85:
+    elif r < 0.75:
         n = int(10 ** rng.uniform(0, 3.3))
+    elif r < 0.85:
+        # around multiples of plausible block sizes: k*B - 1, k*B, k*B + 1
+        b = rng.choice([100, 1000, 1024, 4096, 8192])
+        cap = 100000 if tier == "thorough" else 20000
+        n = max(0, min(cap, b * rng.randrange(1, max(2, cap // b + 1)) + rng.choice([-1, 0, 1])))
     else:
         n = int(10 ** rng.uniform(3.3, 5.0 if tier == "thorough" else 4.3))
     return {
@@ -267,9 +272,51 @@ def _sweep_scenario(i: int, tier: str, prop: str) -> dict:
     return scn
 
 
+SIZE_SWEEP_RUNS = 8
+_SIZE_CASES: list = []
+
+
+def _size_cases() -> list:
+    """Pixel counts n for which the number of float32 ELEMENTS of the pixel block (9 rows x n) is
+    k*B - 1, k*B or k*B + 1 for a power-of-two block size B = 2**12 .. 2**20 and k = 1..8 (the
+    row count 9 is the format's own constant; a writer that stages elements in blocks of B has
+    its boundaries exactly there), x byte order x chunk size (n, larger than n)."""
+    if _SIZE_CASES:
+        return _SIZE_CASES
+    ns = set()
+    for m in range(12, 21):
+        for k in range(1, 9):
+            for d in (-1, 0, 1):
+                e = k * (1 << m) + d
+                if e % 9 == 0 and 0 < e // 9 <= 100000:
+                    ns.add(e // 9)
+    for n in sorted(ns):
+        for bo in ("little", "big"):
+            for chunk in (n, 100000):
+                _SIZE_CASES.append({"n": n, "byteorder": bo, "chunk": chunk})
+    return _SIZE_CASES
+
+
+def _size_sweep_scenario(j: int, tier: str, prop: str) -> dict:
+    import random
+
+    rng = random.Random(4711)
+    scn = generate(rng, tier, -1, prop, nested=True)
+    pix = _gen_call(rng, "pix", tier)
+    pix["runs"] = pix["runs"][:1]
+    pix["n_dims"] = 4
+    pix["pix"].update(layout="plain", id_edge=False, cdtype=None)
+    scn.update(calls=[pix], sink="mem", fname=None, title="sizes", default_chunk=False, permute_seed=None,
+               recreate=False, reuse_builder=False, prelude=None, preexist=None, faults={"mode": "none"})
+    scn["size_sweep"] = [j, SIZE_SWEEP_RUNS]
+    return scn
+
+
 def generate(rng, tier: str, i: int, prop: str, nested: bool = False) -> dict:
     if not nested and 0 <= i < SWEEP_RUNS:
         return _sweep_scenario(i, tier, prop)
+    if not nested and SWEEP_RUNS <= i < SWEEP_RUNS + SIZE_SWEEP_RUNS:
+        return _size_sweep_scenario(i - SWEEP_RUNS, tier, prop)
     kinds = ["pix", "instrument", "sample", "dnd", "detpar"]
     r = rng.random()
     if r < 0.25:
@@ -750,6 +797,21 @@ class SqwEngine(Engine):
         ctx.probe("byteorder_" + scn["byteorder"])
         ctx.probe("sink_" + scn["sink"])
 
+        if scn.get("size_sweep"):
+            part, of = scn["size_sweep"]
+            mine = [c for m, c in enumerate(_size_cases()) if m % of == part]
+            for c in mine:
+                v = copy.deepcopy({k: val for k, val in scn.items() if k != "size_sweep"})
+                v["calls"][0]["pix"]["n"] = c["n"]
+                v.update(byteorder=c["byteorder"], chunk=c["chunk"])
+                if not self._other_file(v, ctx, f"size sweep n={c['n']} {c['byteorder']} chunk={c['chunk']}"):
+                    break
+                if ctx.violations:
+                    for viol in ctx.violations:
+                        viol.setdefault("hint", {}).update(size_case=c)
+                    break
+            ctx.count("size_sweep_cases", len(mine))
+            return
         if scn.get("prelude"):
             self._prelude(scn, ctx)
         if scn.get("predecessor"):
@@ -1843,6 +1905,11 @@ def _shrink(self, scn, violation=None):
         c["preexist"] = None
         yield c
     hint = (violation or {}).get("hint") or {}
+    if s.get("size_sweep") and "size_case" in hint:
+        c = copy.deepcopy({k: v for k, v in s.items() if k != "size_sweep"})
+        c["calls"][0]["pix"]["n"] = hint["size_case"]["n"]
+        c.update(byteorder=hint["size_case"]["byteorder"], chunk=hint["size_case"]["chunk"])
+        yield c
     if s.get("interleave") and "il_where" in hint and (
             s["interleave"].get("sweep") or s["interleave"].get("at") != hint["il_at"]):
         c = copy.deepcopy(s)
@@ -1950,7 +2017,8 @@ def _shrink(self, scn, violation=None):
 SqwEngine.nontrivial = _nontrivial
 SqwEngine.describe = _describe
 SqwEngine.shrink = _shrink
-SqwEngine.selftest_indices = lambda self, n: [0, 1, 24, 25] + list(range(SWEEP_RUNS, SWEEP_RUNS + n - 4))
+SqwEngine.selftest_indices = lambda self, n: [0, 1, 24, 25, SWEEP_RUNS] + list(
+    range(SWEEP_RUNS + SIZE_SWEEP_RUNS, SWEEP_RUNS + SIZE_SWEEP_RUNS + n - 5))
 
 
 def make_engine(prop):
